@@ -72,6 +72,7 @@ func runC10(c *Ctx) {
 	c.rule("nonnil-preserved", "containers rebuilt on the way back are created with reflect.MakeSlice / MakeMap* (a non-nil, possibly empty, input stays non-nil) and reflect.Zero of a container type is returned only under a nil-ness test of the input", 3)
 	c.rule("zero-only-for-unset", "in the transform package reflect.Zero (the 'unset' value handed back to lower layers) is produced only under a true nil-ness test of the value it replaces (IsNil / IsZero / isNil / == nil / the all-fields-nil flag): an explicitly empty slice, map or struct is not reported as unset", 7)
 	c.rule("anon-struct-only", "(shared with C16) Mangle and Unmangle of the anonymous-flatten mangler agree that only pointers to structs are flattened", 3)
+	c.rule("placeholder-types", "every reflect.Zero / MakeSlice / New stored as the value of translated field z in the recursive unmangling is typed by that field's own type fieldState.out[z].field.Type", 3)
 	c.rule("anon-unset-total", "the anonymous-flatten unmangler clears its all-fields-nil flag for a value of a nil-able kind {Ptr, Slice, Map, Interface, Chan} only under a test that the value is not nil/zero", 1)
 	c.rule("either-or", "(shared with C14) AliasMangler.Unmangle: both-set error exactly when both copies are set; values returned from the scan were tested set", 3)
 	c.rule("nil-test-total", "(shared with C14) every 'is set' test in AliasMangler.Unmangle goes through one kind-total predicate", 2)
@@ -99,6 +100,7 @@ func runC10(c *Ctx) {
 	c16SetConvert(c, newKindCtx(c.W))
 	c10ZeroOnlyUnset(c)
 	c10AnonUnsetTotal(c)
+	c10PlaceholderTypes(c)
 	c16AnonStructOnly(c, "anon-struct-only")
 	c14AliasUnmangle(c)
 	c10Unset(c)
@@ -361,6 +363,52 @@ func c10Window(c *Ctx) {
 	}
 	c.check(okWin && okN && okInc, "window-width", relName(rt)+"#window", sl.Pos(), "window [off : off+len(state.out)], off += len(state.out) of the same state, starting at 0 per mangler",
 		"the window width and the offset increment do not use the same len(state.out), or the offset does not restart at 0")
+	// the layer written is a buffer of its own: FieldValueTuple values are stored into (or appended to) a slice made
+	// in this function, never into something derived from the layer the window reads (an in-place compaction
+	// overwrites values that have not been read yet whenever a field maps to zero translated fields)
+	{
+		readBase := sl.X
+		derivesFromRead := func(v ssa.Value) bool {
+			return derivesAny(v, func(x ssa.Value) bool { return x == readBase || sameValue(x, readBase) }, nil)
+		}
+		nW, okBuf := 0, true
+		var badPos token.Pos
+		isTuple := func(t types.Type) bool { return namedTypeName(t) == "transform.FieldValueTuple" }
+		for _, i := range allInstrs(rt) {
+			switch x := i.(type) {
+			case *ssa.Store:
+				ia, ok := x.Addr.(*ssa.IndexAddr)
+				if !ok || !isTuple(x.Val.Type()) {
+					continue
+				}
+				if al, ok := ia.X.(*ssa.Alloc); ok && al.Comment == "varargs" {
+					continue // the argument list of an append, handled below
+				}
+				nW++
+				if _, isMake := ia.X.(*ssa.MakeSlice); !isMake || derivesFromRead(ia.X) {
+					okBuf = false
+					badPos = x.Pos()
+				}
+			case *ssa.Call:
+				if calleeFullName(x) != "builtin.append" {
+					continue
+				}
+				if sty, ok := x.Type().Underlying().(*types.Slice); !ok || !isTuple(sty.Elem()) {
+					continue
+				}
+				nW++
+				if derivesFromRead(x.Call.Args[0]) {
+					okBuf = false
+					badPos = x.Pos()
+				}
+			}
+		}
+		if !badPos.IsValid() {
+			badPos = sl.Pos()
+		}
+		c.check(okBuf && nW > 0, "window-width", relName(rt)+"#write-buffer", badPos, "the unmangled layer is written into a slice of its own (made per mangler), not into the layer being read",
+			"the unmangled layer is written into (a re-slice of) the layer the window still reads from: when a field consumes no translated fields its value overwrites the next field's unread value")
+	}
 	// the state element is mState[manglerNum][srcIdx] with srcIdx the forward range index and manglerNum descending
 	var mgrIdx ssa.Value
 	for _, i := range allInstrs(rt) {
@@ -980,4 +1028,54 @@ func c10ShouldRecurse(c *Ctx, im manglerImpl) {
 		}
 	}
 	c.check(okR, "should-recurse-table", im.name, im.recurse.Pos(), im.name+".ShouldRecurse == "+want, im.name+".ShouldRecurse is not the constant "+want+" (nested structs, also inside slices and arrays, would not be translated like top-level ones)")
+}
+
+// c10PlaceholderTypes: in the recursive unmangling of a mangled layer, every placeholder or container built with
+// reflect.Zero / MakeSlice / New and stored as the value of translated field z is typed by the type of that very
+// field, fieldState.out[z].field.Type (not by the original field's type, which differs as soon as a mangler
+// changed the field's type: reflect.Set panics, even for an entirely unset value).
+func c10PlaceholderTypes(c *Ctx) {
+	w := c.W
+	f := w.fn("transform", "Transformer.maybeRecursivelyUnmangle")
+	if !c.need(f != nil, "transform.Transformer.maybeRecursivelyUnmangle") {
+		return
+	}
+	c.analysed(relName(f))
+	n := 0
+	for _, i := range allInstrs(f) {
+		st, ok := i.(*ssa.Store)
+		if !ok || types.TypeString(st.Val.Type(), nil) != "reflect.Value" {
+			continue
+		}
+		fa, ok := st.Addr.(*ssa.FieldAddr)
+		if !ok || fieldName(fa.X.Type(), fa.Field) != "Value" {
+			continue
+		}
+		ia, ok := fa.X.(*ssa.IndexAddr)
+		if !ok {
+			continue
+		}
+		// the constructor call behind the stored value
+		v := st.Val
+		if el, ok := v.(*ssa.Call); ok && calleeFullName(el) == "(reflect.Value).Elem" {
+			v = el.Call.Args[0]
+		}
+		call, ok := v.(*ssa.Call)
+		if !ok {
+			continue
+		}
+		switch calleeFullName(call) {
+		case "reflect.Zero", "reflect.MakeSlice", "reflect.New":
+		default:
+			continue
+		}
+		n++
+		tArg := canon(call.Call.Args[0])
+		want := "out[" + canon(ia.Index) + "].field.Type"
+		c.check(strings.Contains(tArg, want), "placeholder-types", relName(f)+"#"+itoa(n), call.Pos(), "typed by fieldState.out[z].field.Type of the field it is stored for",
+			"a "+calleeFullName(call)+" stored as the value of translated field "+canon(ia.Index)+" is typed by "+tArg+" instead of that field's own type (…out["+canon(ia.Index)+"].field.Type): for a field whose type a mangler changed the later reflect.Set panics")
+	}
+	if n == 0 {
+		c.bad("placeholder-types", relName(f), f.Pos(), "no reflect.Zero / MakeSlice / New placeholder found")
+	}
 }
